@@ -152,6 +152,10 @@ func (e *Engine) VerifyFunc(fn *ssa.Function, spec *FuncSpec, lockMode bool) (re
 	fx.nowEntry = "$now@entry"
 	fx.sv(fx.entry, "$now", SInt)
 	fx.ctx.Assert("(>= $now@entry 0)")
+	if lockMode {
+		acq0 := fx.sv(fx.entry, "$acq", ArrS(SRef, SInt))
+		fx.ctx.Assert(fmt.Sprintf("(forall ((o Ref)) (! (= (select %s o) 0) :pattern ((select %s o))))", acq0, acq0))
+	}
 	st := fx.entry.clone()
 	a := &act{fx: fx, fn: fn, id: 0, top: true, vals: map[ssa.Value]Val{}, spec: spec}
 	fx.stack = []*ssa.Function{fn}
